@@ -96,9 +96,80 @@ def make_overlay(cfg, unit, bdir):
         rep[os.path.join(REPO, dst)] = os.path.join(VERIF, src)
     for f in glob.glob(os.path.join(VERIF, "kit", "*.go")):
         rep[os.path.join(REPO, "verifkit", os.path.basename(f))] = f
+    for f in glob.glob(os.path.join(VERIF, "kit", "*", "*.go")):
+        rep[os.path.join(REPO, "verifkit", os.path.basename(os.path.dirname(f)), os.path.basename(f))] = f
+    if unit.get("lock_order"):
+        rep.update(instrument_locks(pd, os.path.join(bdir, "lockinst." + unit["name"])))
     p = os.path.join(bdir, "overlay.%s.json" % unit["name"])
     json.dump({"Replace": rep}, open(p, "w"), indent=1)
     return p, n
+
+
+LOCK_RE = re.compile(r"\bsync\.(RW)?Mutex\b")
+
+
+def instrument_locks(pd, outdir):
+    """lock-order instrumentation (kit/verifsync): in copies of the package's non-test sources, every sync.Mutex / sync.RWMutex
+    becomes verifsync.Mutex[class] / verifsync.RWMutex[class], one class per declaring struct field. Returns overlay entries."""
+    os.makedirs(outdir, exist_ok=True)
+    files = [f for f in sorted(glob.glob(os.path.join(pd, "*.go"))) if not f.endswith("_test.go")]
+    by_field = {}
+    plans = {}
+    n = 0
+    for f in files:
+        lines = open(f).read().split("\n")
+        cur = None
+        plan = []
+        for i, l in enumerate(lines):
+            m = re.match(r"^type (\w+)(\[[^\]]*\])? struct \{", l)
+            if m:
+                cur = m.group(1)
+            elif l.startswith("}"):
+                cur = None
+            code = l.split("//")[0]
+            if not LOCK_RE.search(code):
+                continue
+            st = code.strip()
+            if cur and not re.search(r"[:=]", code):
+                field = st.split()[0]
+                if field.startswith("sync.") or field.startswith("*sync."):
+                    field = field.split(".")[-1]
+                cls = "%s.%s" % (cur, field)
+                by_field.setdefault(field, cls)
+            else:
+                cls = None
+            plan.append((i, cls))
+        if plan:
+            plans[f] = (lines, plan)
+    rep = {}
+    markers = {}
+    for f, (lines, plan) in plans.items():
+        decl = []
+        for i, cls in plan:
+            if cls is None:
+                m = re.search(r"(\w+):\s*&?sync\.", lines[i])
+                cls = by_field.get(m.group(1)) if m else None
+                if cls is None:
+                    cls = "%s:%d" % (os.path.basename(f), i + 1)
+            if cls not in markers:
+                n += 1
+                markers[cls] = "verifLk%d" % n
+                decl.append('type %s struct{}\n\nfunc (%s) VerifLockClass() string { return "%s" }\n' % (markers[cls], markers[cls], cls))
+            mk = markers[cls]
+            code, sep, com = lines[i].partition("//")
+            code = LOCK_RE.sub(lambda m: "verifsync.%sMutex[%s]" % (m.group(1) or "", mk), code)
+            lines[i] = code + sep + com
+        for j, l in enumerate(lines):
+            if l.startswith("package "):
+                lines.insert(j + 1, 'import verifsync "github.com/slackhq/nebula/verifkit/verifsync"')
+                break
+        lines.append("var _ sync.Mutex\n")
+        lines.extend(decl)
+        out = os.path.join(outdir, os.path.basename(f))
+        open(out, "w").write("\n".join(lines))
+        rep[f] = out
+    json.dump({"classes": markers}, open(os.path.join(outdir, "classes.json"), "w"), indent=1)
+    return rep
 
 
 def make_modfile(bdir, extra_requires):
